@@ -9,4 +9,4 @@ for u in all_units(mod):
     print('==', u.name, 'paths', r['paths'], 'err', r['error'], 'wall', r.get('wall_s'))
     for n, a in sorted(r['obligations'].items()):
         st = 'ok' if not (a['failed'] or a['unknown']) else 'FAIL'
-        print('   %-4s %s x%d' % (st, n, a['instances']), (a['model'] if st=='FAIL' and '-v' in sys.argv else ''))
+        print('   %-4s %s x%d' % (st, n, a['instances']), ((a['model'], a.get('detail')) if st=='FAIL' and '-v' in sys.argv else ''))
